@@ -17,69 +17,69 @@ package builder
 
 //@ pred CtxOK(ctx *MethodContext) bool = ctx != nil && ctx.Conf != nil
 
-//@ func UseUnderlyingTypeMethods.Matches
+//@ func UseUnderlyingTypeMethods.Matches(self; ctx, source, target)
 //@   props C03 C06 C13
 //@   requires@C13 CtxOK(ctx) && source != nil && target != nil
 //@   assigns nothing
 //@   ensures result ==> ctx.Conf.UseUnderlyingTypeMethods
 //@   ensures result ==> (source.Named || target.Named)
 
-//@ func SkipCopy.Matches
+//@ func SkipCopy.Matches(self; ctx, source, target)
 //@   props C03 C04 C13
 //@   pure
 //@   requires@C13 CtxOK(ctx) && source != nil && target != nil
 //@   ensures result == MatchesSkipCopy(ctx, source, target)
 
-//@ func Enum.Matches
+//@ func Enum.Matches(self; ctx, source, target)
 //@   props C03 C08 C13
 //@   requires@C13 CtxOK(ctx) && source != nil && target != nil
 //@   assigns source.enum, target.enum
 //@   ensures result ==> ctx.Conf.Enum.Enabled
 //@   ensures result ==> source.Named && target.Named
 
-//@ func BasicTargetPointerRule.Matches
+//@ func BasicTargetPointerRule.Matches(self; _, source, target)
 //@   props C03 C11 C13
 //@   pure
 //@   requires@C13 source != nil && target != nil
 //@   ensures result == MatchesBasicTargetPointer(source, target)
 
-//@ func Pointer.Matches
+//@ func Pointer.Matches(self; _, source, target)
 //@   props C03 C11 C13
 //@   pure
 //@   requires@C13 source != nil && target != nil
 //@   ensures result == MatchesPointer(source, target)
 
-//@ func SourcePointer.Matches
+//@ func SourcePointer.Matches(self; ctx, source, target)
 //@   props C03 C11 C13
 //@   pure
 //@   requires@C13 CtxOK(ctx) && source != nil && target != nil
 //@   ensures result == MatchesSourcePointer(ctx, source, target)
 
-//@ func TargetPointer.Matches
+//@ func TargetPointer.Matches(self; _, source, target)
 //@   props C03 C11 C13
 //@   pure
 //@   requires@C13 source != nil && target != nil
 //@   ensures result == MatchesTargetPointer(source, target)
 
-//@ func Basic.Matches
+//@ func Basic.Matches(self; _, source, target)
 //@   props C03 C11 C13
 //@   pure
 //@   requires@C13 source != nil && target != nil
 //@   ensures result == MatchesBasic(source, target)
 
-//@ func Struct.Matches
+//@ func Struct.Matches(self; _, source, target)
 //@   props C03 C13
 //@   pure
 //@   requires@C13 source != nil && target != nil
 //@   ensures result == MatchesStruct(source, target)
 
-//@ func List.Matches
+//@ func List.Matches(self; _, source, target)
 //@   props C03 C13
 //@   pure
 //@   requires@C13 source != nil && target != nil
 //@   ensures result == MatchesList(source, target)
 
-//@ func Map.Matches
+//@ func Map.Matches(self; _, source, target)
 //@   props C03 C13
 //@   pure
 //@   requires@C13 source != nil && target != nil
@@ -140,13 +140,13 @@ package builder
 //@   ensures s.List && t.List && !t.ListFixed ==> !NoRule(ctx, s, t)
 //@   ensures s.Map && t.Map ==> !NoRule(ctx, s, t)
 
-//@ func NewError
+//@ func NewError(cause)
 //@   props C03
 //@   requires true
 //@   ensures result != nil && result.Cause == cause && len(result.Path) == 0
 //@   ensures isFresh(result)
 
-//@ func findUnderlyingExtendMapping
+//@ func findUnderlyingExtendMapping(ctx, source, target)
 //@   props C06 C13
 //@   requires@C13 CtxOK(ctx) && source != nil && target != nil
 //@   assigns nothing
@@ -154,7 +154,7 @@ package builder
 //@   ensures underlyingSource ==> source.Named
 //@   ensures underlyingTarget ==> target.Named
 
-//@ func isEnum
+//@ func isEnum(ctx, source, target)
 //@   props C08 C13
 //@   requires@C13 CtxOK(ctx) && source != nil && target != nil
 //@   assigns source.enum, target.enum
@@ -163,7 +163,7 @@ package builder
 // ---- C10: the zero-value guard decision table (docs/reference/update.md) ----
 //@ pred MethodOK(ctx *MethodContext) bool = ctx != nil && ctx.Conf != nil && ctx.Conf.Definition != nil
 
-//@ func shouldCheckAgainstZero
+//@ func shouldCheckAgainstZero(ctx, s, t, isUpdate, call)
 //@   props C10 C13
 //@   pure
 //@   requires@C13 MethodOK(ctx) && s != nil && t != nil
@@ -178,19 +178,19 @@ package builder
 
 // ---- C07: the error path ----
 // Field/Index/Key return the path extended by exactly one element at the end
-//@ func ErrorPath.Field
+//@ func ErrorPath.Field(e; name)
 //@   props C07
 //@   pure
 //@   ensures len(result) == len(e) + 1 && (forall j int :: 0 <= j && j < len(e) ==> result[j] == e[j])
 //@   ensures dynIs[errElmField](result[len(e)]) && string(unboxed[errElmField](result[len(e)])) == name
 
-//@ func ErrorPath.Index
+//@ func ErrorPath.Index(e; code)
 //@   props C07
 //@   pure
 //@   ensures len(result) == len(e) + 1 && (forall j int :: 0 <= j && j < len(e) ==> result[j] == e[j])
 //@   ensures dynIs[errElmIndex](result[len(e)]) && unboxed[errElmIndex](result[len(e)]).stmt == code
 
-//@ func ErrorPath.Key
+//@ func ErrorPath.Key(e; code)
 //@   props C07
 //@   pure
 //@   ensures len(result) == len(e) + 1 && (forall j int :: 0 <= j && j < len(e) ==> result[j] == e[j])
@@ -206,7 +206,7 @@ package builder
 //@     && (dynIs[errElmIndex](elm) ==> unboxed[errElmIndex](elm).stmt != nil) && (dynIs[errElmKey](elm) ==> unboxed[errElmKey](elm).stmt != nil)
 
 // wrapErrorsUsing: Wrap(err, arg_0 ... arg_n-1), one argument per path element, in order, outermost first
-//@ func ErrorPath.WrapErrorsUsing
+//@ func ErrorPath.WrapErrorsUsing(e; pkg, errStmt)
 //@   props C07 C18 C13
 //@   pure
 //@   requires@C13 forall j int :: 0 <= j && j < len(e) ==> PathElem(e[j])
@@ -215,7 +215,7 @@ package builder
 //@   at call Call#4 assert len(arg0) == len(e) + 1 && arg0[0] == jen.Code(errStmt) && (forall j int :: 0 <= j && j < len(e) ==> arg0[j+1] == ElemArg(pkg, e[j]))
 
 // wrapErrors: only the innermost element (field name or index); a map key yields the bare error
-//@ func ErrorPath.WrapErrors
+//@ func ErrorPath.WrapErrors(e; errStmt)
 //@   props C07 C18 C13
 //@   pure
 //@   requires@C13 forall j int :: 0 <= j && j < len(e) ==> PathElem(e[j])
@@ -238,21 +238,21 @@ package builder
 //@   reads F:builder.MethodContext.IndexID F:generator.generatedMethod.OriginPath
 
 // interface contracts (what a builder may rely on when it recurses through the generator)
-//@ func Generator.Build
+//@ func Generator.Build(this; ctx, sourceID, source, target, path)
 //@   props C03 C06
 //@   requires@C13 GenInv(this) && CallOK(ctx, sourceID, source, target)
 //@   ensures@C13 GenInv(this)
 //@   ensures err == nil ==> result1 != nil && result1.Code != nil
-//@ func Generator.Assign
+//@ func Generator.Assign(this; ctx, assignTo, sourceID, source, target, path)
 //@   props C03 C06
 //@   requires@C13 GenInv(this) && CallOK(ctx, sourceID, source, target) && AssignOK(assignTo)
 //@   ensures@C13 GenInv(this)
-//@ func Generator.CallMethod
+//@ func Generator.CallMethod(this; ctx, method, sourceID, source, target, path)
 //@   props C03 C06 C07
 //@   requires@C13 GenInv(this) && MethodOK(ctx) && ctx.Namer != nil && method != nil && target != nil
 //@   ensures@C13 GenInv(this)
 //@   ensures err == nil ==> result1 != nil && result1.Code != nil
-//@ func Generator.ReturnError
+//@ func Generator.ReturnError(this; ctx, path, id)
 //@   props C07
 //@   requires@C13 GenInv(this) && MethodOK(ctx) && id != nil
 //@   ensures@C13 GenInv(this)
@@ -272,50 +272,50 @@ package builder
 //@     && (dynIs[*UseUnderlyingTypeMethods](b) ==> MayMatchUnderlying(ctx, s, t))
 //@     && (dynIs[*Enum](b) ==> MayMatchEnum(ctx, s, t))
 
-//@ func Builder.Build
+//@ func Builder.Build(this; gen, ctx, sourceID, source, target, path)
 //@   props C03
 //@   requires@C13 BuilderApplies(this, ctx, source, target)
 //@   requires@C13 gen != nil && GenInv(gen) && CallOK(ctx, sourceID, source, target)
 //@   ensures@C13 GenInv(gen)
 //@   ensures err == nil ==> result1 != nil && result1.Code != nil
-//@ func Builder.Assign
+//@ func Builder.Assign(this; gen, ctx, assignTo, sourceID, source, target, path)
 //@   props C03
 //@   requires@C13 BuilderApplies(this, ctx, source, target)
 //@   requires@C13 gen != nil && GenInv(gen) && CallOK(ctx, sourceID, source, target) && AssignOK(assignTo)
 //@   ensures@C13 GenInv(gen)
 
-//@ func Error.Lift
+//@ func Error.Lift(e; paths)
 //@   props C03
 //@   inline
 
-//@ func AssignOf
+//@ func AssignOf(s)
 //@   props C03
 //@   ensures result != nil && isFresh(result) && result.Stmt == s && !result.Must && !result.Update
-//@ func AssignTo.WithIndex
+//@ func AssignTo.WithIndex(a; s)
 //@   props C03 C13
 //@   requires@C13 AssignOK(a)
 //@   ensures result != nil && isFresh(result) && result.Stmt != nil
-//@ func AssignTo.MustAssign
+//@ func AssignTo.MustAssign(a; )
 //@   props C03
 //@   inline
-//@ func AssignTo.IsUpdate
+//@ func AssignTo.IsUpdate(a; )
 //@   props C03
 //@   inline
 
-//@ func AssignByBuild
+//@ func AssignByBuild(b, gen, ctx, assignTo, sourceID, source, target, errPath)
 //@   props C03 C13
 //@   propagates
 //@   requires@C13 b != nil && gen != nil && GenInv(gen) && CallOK(ctx, sourceID, source, target) && AssignOK(assignTo)
 //@   requires@C13 BuilderApplies(b, ctx, source, target)
 //@   ensures@C13 GenInv(gen)
-//@ func BuildByAssign
+//@ func BuildByAssign(b, gen, ctx, sourceID, source, target, path)
 //@   props C03 C13
 //@   propagates
 //@   requires@C13 b != nil && gen != nil && GenInv(gen) && CallOK(ctx, sourceID, source, target)
 //@   requires@C13 BuilderApplies(b, ctx, source, target)
 //@   ensures@C13 GenInv(gen)
 //@   ensures err == nil ==> result1 != nil && result1.Code != nil && isFresh(result1)
-//@ func buildTargetVar
+//@ func buildTargetVar(gen, ctx, sourceID, source, target, errPath)
 //@   props C03 C11
 //@   propagates
 //@   requires@C13 gen != nil && GenInv(gen) && CallOK(ctx, sourceID, source, target)
@@ -325,7 +325,7 @@ package builder
 //@   ensures@C11 !old(ctx.UseConstructor && types.Identical(ctx.Conf.Source.T, source.T) && types.Identical(ctx.Conf.Target.T, target.T)) ==> ctx.UseConstructor == old(ctx.UseConstructor) && err == nil
 //@   at@C11 call gen.CallMethod#* assert ctx.Conf.Constructor == arg1
 
-//@ func UseUnderlyingTypeMethods.Build(gen, ctx, sourceID, source, target, errPath)
+//@ func UseUnderlyingTypeMethods.Build(self; gen, ctx, sourceID, source, target, errPath)
 //@   props C03 C13
 // C03: the nested position is always converted through the generator (method lookup + rules): a position without
 // rule at any depth fails the whole method -- it is never skipped or passed through unconverted
@@ -339,7 +339,7 @@ package builder
 //@   requires@C13 MayMatchUnderlying(ctx, source, target)
 //@   requires@C13 gen != nil && CallOK(ctx, sourceID, source, target)
 //@   ensures err == nil ==> result1 != nil && result1.Code != nil
-//@ func UseUnderlyingTypeMethods.Assign(gen, ctx, assignTo, sourceID, source, target, errPath)
+//@ func UseUnderlyingTypeMethods.Assign(u; gen, ctx, assignTo, sourceID, source, target, errPath)
 //@   props C03 C13
 //@   propagates
 //@   requires@C13 self != nil
@@ -348,7 +348,7 @@ package builder
 //@   requires@C13 MayMatchUnderlying(ctx, source, target)
 //@   requires@C13 gen != nil && CallOK(ctx, sourceID, source, target) && AssignOK(assignTo)
 
-//@ func SkipCopy.Build(gen, ctx, sourceID, source, target, errPath)
+//@ func SkipCopy.Build(self; gen, ctx, sourceID, source, target, errPath)
 //@   props C03
 //@   propagates
 // C04: the source expression itself is only passed through where that is allowed
@@ -359,7 +359,7 @@ package builder
 //@   requires@C13 MatchesSkipCopy(ctx, source, target)
 //@   requires@C13 gen != nil && CallOK(ctx, sourceID, source, target)
 //@   ensures err == nil ==> result1 != nil && result1.Code != nil
-//@ func SkipCopy.Assign(gen, ctx, assignTo, sourceID, source, target, errPath)
+//@ func SkipCopy.Assign(self; gen, ctx, assignTo, sourceID, source, target, errPath)
 //@   props C03 C13
 //@   propagates
 //@   requires@C13 self != nil
@@ -368,7 +368,7 @@ package builder
 //@   requires@C13 MatchesSkipCopy(ctx, source, target)
 //@   requires@C13 gen != nil && CallOK(ctx, sourceID, source, target) && AssignOK(assignTo)
 
-//@ func Enum.Build(gen, ctx, sourceID, source, target, errPath)
+//@ func Enum.Build(self; gen, ctx, sourceID, source, target, path)
 //@   props C03 C08
 //@   propagates
 // C08: a member maps by enum:map, else by the transformers, else to the member of the same name
@@ -384,7 +384,7 @@ package builder
 //@   requires@C13 MayMatchEnum(ctx, source, target)
 //@   requires@C13 gen != nil && CallOK(ctx, sourceID, source, target)
 //@   ensures err == nil ==> result1 != nil && result1.Code != nil
-//@ func Enum.Assign(gen, ctx, assignTo, sourceID, source, target, errPath)
+//@ func Enum.Assign(s; gen, ctx, assignTo, sourceID, source, target, path)
 //@   props C03 C13
 //@   propagates
 //@   requires@C13 self != nil
@@ -393,7 +393,7 @@ package builder
 //@   requires@C13 MayMatchEnum(ctx, source, target)
 //@   requires@C13 gen != nil && CallOK(ctx, sourceID, source, target) && AssignOK(assignTo)
 
-//@ func BasicTargetPointerRule.Build(gen, ctx, sourceID, source, target, errPath)
+//@ func BasicTargetPointerRule.Build(self; gen, ctx, sourceID, source, target, errPath)
 //@   props C03
 // C03: the nested position is always converted through the generator (method lookup + rules): a position without
 // rule at any depth fails the whole method -- it is never skipped or passed through unconverted
@@ -410,7 +410,7 @@ package builder
 //@   requires@C13 MatchesBasicTargetPointer(source, target)
 //@   requires@C13 gen != nil && CallOK(ctx, sourceID, source, target)
 //@   ensures err == nil ==> result1 != nil && result1.Code != nil
-//@ func BasicTargetPointerRule.Assign(gen, ctx, assignTo, sourceID, source, target, errPath)
+//@ func BasicTargetPointerRule.Assign(b; gen, ctx, assignTo, sourceID, source, target, errPath)
 //@   props C03 C13
 //@   propagates
 //@   requires@C13 self != nil
@@ -419,7 +419,7 @@ package builder
 //@   requires@C13 MatchesBasicTargetPointer(source, target)
 //@   requires@C13 gen != nil && CallOK(ctx, sourceID, source, target) && AssignOK(assignTo)
 
-//@ func Pointer.Build(gen, ctx, sourceID, source, target, errPath)
+//@ func Pointer.Build(p; gen, ctx, sourceID, source, target, errPath)
 //@   props C03 C13
 //@   at@C03 call gen.Assign#1 assert arg3 == source.PointerInner && arg4 == target.PointerInner
 //@   propagates
@@ -437,7 +437,7 @@ package builder
 //@   requires@C13 MatchesPointer(source, target)
 //@   requires@C13 gen != nil && CallOK(ctx, sourceID, source, target)
 //@   ensures err == nil ==> result1 != nil && result1.Code != nil
-//@ func Pointer.Assign(gen, ctx, assignTo, sourceID, source, target, errPath)
+//@ func Pointer.Assign(self; gen, ctx, assignTo, sourceID, source, target, errPath)
 //@   props C03 C13
 // C03: the nested position is always converted through the generator (method lookup + rules): a position without
 // rule at any depth fails the whole method -- it is never skipped or passed through unconverted
@@ -452,7 +452,7 @@ package builder
 //@   requires@C13 MatchesPointer(source, target)
 //@   requires@C13 gen != nil && CallOK(ctx, sourceID, source, target) && AssignOK(assignTo)
 
-//@ func SourcePointer.Build(gen, ctx, sourceID, source, target, path)
+//@ func SourcePointer.Build(s; gen, ctx, sourceID, source, target, path)
 //@   props C03 C13
 //@   at@C03 call gen.Assign#1 assert arg3 == source.PointerInner && arg4 == target
 //@   propagates
@@ -469,7 +469,7 @@ package builder
 //@   requires@C13 MatchesSourcePointer(ctx, source, target)
 //@   requires@C13 gen != nil && CallOK(ctx, sourceID, source, target)
 //@   ensures err == nil ==> result1 != nil && result1.Code != nil
-//@ func SourcePointer.Assign(gen, ctx, assignTo, sourceID, source, target, path)
+//@ func SourcePointer.Assign(self; gen, ctx, assignTo, sourceID, source, target, path)
 //@   props C03 C13
 // C03: the nested position is always converted through the generator (method lookup + rules): a position without
 // rule at any depth fails the whole method -- it is never skipped or passed through unconverted
@@ -484,7 +484,7 @@ package builder
 //@   requires@C13 MatchesSourcePointer(ctx, source, target)
 //@   requires@C13 gen != nil && CallOK(ctx, sourceID, source, target) && AssignOK(assignTo)
 
-//@ func TargetPointer.Build(gen, ctx, sourceID, source, target, path)
+//@ func TargetPointer.Build(self; gen, ctx, sourceID, source, target, path)
 //@   props C03 C13
 // C03: the nested position is always converted through the generator (method lookup + rules): a position without
 // rule at any depth fails the whole method -- it is never skipped or passed through unconverted
@@ -506,7 +506,7 @@ package builder
 //@   requires@C13 MatchesTargetPointer(source, target)
 //@   requires@C13 gen != nil && CallOK(ctx, sourceID, source, target)
 //@   ensures err == nil ==> result1 != nil && result1.Code != nil
-//@ func TargetPointer.Assign(gen, ctx, assignTo, sourceID, source, target, errPath)
+//@ func TargetPointer.Assign(tp; gen, ctx, assignTo, sourceID, source, target, path)
 //@   props C03 C13
 //@   propagates
 //@   requires@C13 self != nil
@@ -515,7 +515,7 @@ package builder
 //@   requires@C13 MatchesTargetPointer(source, target)
 //@   requires@C13 gen != nil && CallOK(ctx, sourceID, source, target) && AssignOK(assignTo)
 
-//@ func Basic.Build(gen, ctx, sourceID, source, target, errPath)
+//@ func Basic.Build(self; gen, ctx, sourceID, source, target, errPath)
 //@   props C03 C13
 //@   propagates
 // C04: the source expression itself is only passed through where that is allowed
@@ -526,7 +526,7 @@ package builder
 //@   requires@C13 MatchesBasic(source, target)
 //@   requires@C13 gen != nil && CallOK(ctx, sourceID, source, target)
 //@   ensures err == nil ==> result1 != nil && result1.Code != nil
-//@ func Basic.Assign(gen, ctx, assignTo, sourceID, source, target, errPath)
+//@ func Basic.Assign(b; gen, ctx, assignTo, sourceID, source, target, errPath)
 //@   props C03 C13
 //@   propagates
 //@   requires@C13 self != nil
@@ -535,7 +535,7 @@ package builder
 //@   requires@C13 MatchesBasic(source, target)
 //@   requires@C13 gen != nil && CallOK(ctx, sourceID, source, target) && AssignOK(assignTo)
 
-//@ func Struct.Build(gen, ctx, sourceID, source, target, errPath)
+//@ func Struct.Build(s; gen, ctx, sourceID, source, target, errPath)
 //@   props C03 C13
 //@   propagates
 // C04: the source expression itself is only passed through where that is allowed
@@ -546,7 +546,7 @@ package builder
 //@   requires@C13 MatchesStruct(source, target)
 //@   requires@C13 gen != nil && CallOK(ctx, sourceID, source, target)
 //@   ensures err == nil ==> result1 != nil && result1.Code != nil
-//@ func Struct.Assign(gen, ctx, assignTo, sourceID, source, target, errPath)
+//@ func Struct.Assign(s; gen, ctx, assignTo, sourceID, source, target, errPath)
 //@   props C03
 //@   propagates
 //@   loop@C13 1 invariant GenInv(gen)
@@ -574,7 +574,7 @@ package builder
 //@   requires@C13 MatchesStruct(source, target)
 //@   requires@C13 gen != nil && CallOK(ctx, sourceID, source, target) && AssignOK(assignTo)
 
-//@ func List.Build(gen, ctx, sourceID, source, target, errPath)
+//@ func List.Build(l; gen, ctx, sourceID, source, target, path)
 //@   props C03
 //@   propagates
 // C04: the source expression itself is only passed through where that is allowed
@@ -585,7 +585,7 @@ package builder
 //@   requires@C13 MatchesList(source, target)
 //@   requires@C13 gen != nil && CallOK(ctx, sourceID, source, target)
 //@   ensures err == nil ==> result1 != nil && result1.Code != nil
-//@ func List.Assign(gen, ctx, assignTo, sourceID, source, target, path)
+//@ func List.Assign(self; gen, ctx, assignTo, sourceID, source, target, path)
 //@   props C03
 // C03: the nested position is always converted through the generator (method lookup + rules): a position without
 // rule at any depth fails the whole method -- it is never skipped or passed through unconverted
@@ -601,7 +601,7 @@ package builder
 //@   requires@C13 MatchesList(source, target)
 //@   requires@C13 gen != nil && CallOK(ctx, sourceID, source, target) && AssignOK(assignTo)
 
-//@ func Map.Build(gen, ctx, sourceID, source, target, errPath)
+//@ func Map.Build(m; gen, ctx, sourceID, source, target, errPath)
 //@   props C03 C13
 //@   propagates
 // C04: the source expression itself is only passed through where that is allowed
@@ -612,7 +612,7 @@ package builder
 //@   requires@C13 MatchesMap(source, target)
 //@   requires@C13 gen != nil && CallOK(ctx, sourceID, source, target)
 //@   ensures err == nil ==> result1 != nil && result1.Code != nil
-//@ func Map.Assign(gen, ctx, assignTo, sourceID, source, target, errPath)
+//@ func Map.Assign(self; gen, ctx, assignTo, sourceID, source, target, errPath)
 //@   props C03
 // C03: the nested position is always converted through the generator (method lookup + rules): a position without
 // rule at any depth fails the whole method -- it is never skipped or passed through unconverted
@@ -632,7 +632,7 @@ package builder
 //@   requires@C13 gen != nil && CallOK(ctx, sourceID, source, target) && AssignOK(assignTo)
 
 // ---- C03/C05: a target field may only be skipped for a missing (never for an ambiguous) source ----
-//@ func mapField
+//@ func mapField(gen, ctx, targetField, sourceID, source, target, additionalFieldSources, errPath)
 //@   props C03 C05
 //@   propagates
 //@   errignorable result4
@@ -649,13 +649,13 @@ package builder
 //@   at@C01,C14 call method.Parse#1 assert arg0 == types.Object(nextSource.FuncType) && arg1.OutputPackagePath == ctx.OutputPackagePath && arg1.Params == method.ParamsNone
 //@           && arg1.Converter == nil && !arg1.AllowTypeParams && !arg1.Generated && arg1.CustomCall == nextIDCode
 
-//@ func parseAutoMap
+//@ func parseAutoMap(ctx, source)
 //@   props C03 C05 C13
 //@   propagates
 //@   requires@C13 MethodOK(ctx) && source != nil && source.Struct && xtype.TypeFieldsOK(source)
 //@   loop@C13 2 invariant innerSource != nil && innerSource.Struct && xtype.TypeFieldsOK(innerSource)
 
-//@ func MethodContext.Field
+//@ func MethodContext.Field(ctx; target, name)
 //@   props C05 C13
 //@   pure
 //@   requires@C13 MethodOK(ctx) && target != nil
@@ -663,7 +663,7 @@ package builder
 //@   ensures ctx.FieldsTarget == target.String && has(ctx.Conf.Fields, name) ==> result == ctx.Conf.Fields[name]
 //@   ensures ctx.FieldsTarget == target.String && !has(ctx.Conf.Fields, name) ==> result == emptyMapping
 
-//@ func MethodContext.DefinedFields
+//@ func MethodContext.DefinedFields(ctx; target)
 //@   props C05 C09 C13
 //@   requires@C13 MethodOK(ctx) && target != nil
 //@   assigns nothing
@@ -674,21 +674,21 @@ package builder
 //@   loop 1 invariant forall k string :: has(f, k) == has(seen, k)
 //@   loop 1 invariant same(keys(ctx.Conf.Fields), old(keys(ctx.Conf.Fields))) && isFresh(f)
 
-//@ func MethodContext.HasSeen
+//@ func MethodContext.HasSeen(ctx; source)
 //@   props C13
 //@   pure
 //@   requires@C13 ctx != nil && source != nil
 //@   ensures result == (source.Named && has(ctx.SeenNamed, source.NamedType.String()))
 
-//@ func MethodContext.MarkSeen
+//@ func MethodContext.MarkSeen(ctx; source)
 //@   props C13
 //@   requires@C13 ctx != nil && source != nil && ctx.SeenNamed != nil
 //@   assigns map(ctx.SeenNamed)
 
-//@ func enumTargetMismatchError
+//@ func enumTargetMismatchError(targetEnum, sourceName, targetName, previous, sourceValue)
 //@   props C13
 
-//@ func space
+//@ func space(l)
 //@   props C13
 
 // ---- C08: what is emitted for one switch case ----
@@ -696,7 +696,7 @@ package builder
 // result (refused when the explicit method has none), any other @action is invalid; a member name must exist on
 // the target enum ("some source member has no such target" is an error) and is assigned qualified by the
 // target type's package.
-//@ func caseAction
+//@ func caseAction(gen, ctx, nameVar, target, targetEnum, targetName, sourceID, errPath)
 //@   props C08 C03
 //@   propagates
 //@   ensures targetName == "@ignore" ==> err == nil && result == jen.Code(jen.Comment("ignored"))
@@ -708,7 +708,7 @@ package builder
 //@   ensures !strings.HasPrefix(targetName, "@") && err == nil ==> result == jen.Code(nameVar.Clone().Op("=").Add(jen.Qual(target.NamedType.Obj().Pkg().Path(), targetName)))
 
 // equal source values must agree on the target (value or action)
-//@ func enumTargetMismatches
+//@ func enumTargetMismatches(previous, targetEnum, targetName)
 //@   props C08
 //@   pure
 //@   ensures !strings.HasPrefix(targetName, "@") && !strings.HasPrefix(previous.Target, "@") ==> result == (targetEnum.Members[previous.Target] != targetEnum.Members[targetName])
@@ -716,7 +716,7 @@ package builder
 
 // C08: the mappings of ALL configured transformers are merged (a later one overrides an earlier one per key);
 // a failing or empty transformer fails generation
-//@ func executeTransformers
+//@ func executeTransformers(transformers, source, target, sourceEnum, targetEnum)
 //@   props C08 C03
 //@   propagates
 //@   loop@C08 2 invariant forall k string :: has(seen, k) ==> has(transformerMapping, k)
